@@ -221,7 +221,20 @@ def main(argv=None):
     if violations:
         rc = 1
         from .replay import write_replay
+        # one VIOLATION line and one replay per (function, clause): a broken guard can fail hundreds of obligations of one clause
+        groups = {}
+        order = []
         for rel, o in violations:
+            key = (str(rel), o.get("label"))
+            if key not in groups:
+                groups[key] = []
+                order.append(key)
+            groups[key].append((rel, o))
+        for key in order:
+            rel, o = groups[key][0]
+            o = dict(o)
+            if len(groups[key]) > 1:
+                o["also_failed"] = [x.get("id") for _, x in groups[key][1:60]]
             path, confirmed = write_replay(pid, rel, o, results.get(rel), tier)
             tail = '' if confirmed else ' no-failing-input-found'
             lines.append("VIOLATION property=%s replay=%s%s" % (pid, path, tail))
